@@ -5,34 +5,26 @@
    Definitions only. *)
 From GV Require Import Base.Prelude Model.C01 Model.Geom.
 
-Section Sites.
-  Variable D : Z.
-  Variable G : gram.
-  Variable K : Z.
+(* radii are exact rationals: r = (radius_k)^2 * D^2 as (num, den); f = (inner fraction)^2 as (num, den) *)
+Definition dist2 (D : Z) (G : gram) (K : Z) (p s : V3) : Z := min_image_d2 D G K (vsub3 p s).
+Definition within (D : Z) (G : gram) (K : Z) (p s : V3) (r : Z * Z) (f : Z * Z) : bool :=
+  dist2 D G K p s * snd r * snd f <? fst r * fst f.
 
-  Definition dist2 (p s : V3) : Z := min_image_d2 D G K (vsub3 p s).
+(* admissible sites of an atom: indices of the sites whose (scaled) sphere contains it *)
+Fixpoint adm_from (D : Z) (G : gram) (K : Z) (f : Z * Z) (k : Z) (ss : list V3) (rs : list (Z * Z)) (p : V3) : list Z :=
+  match ss, rs with
+  | s :: ss', r :: rs' => (if within D G K p s r f then [k] else []) ++ adm_from D G K f (k + 1) ss' rs' p
+  | _, _ => []
+  end.
 
-  (* set of admissible sites for an atom: index list of the sites within their radius *)
-  Fixpoint admissible_from (k : Z) (sites : list V3) (r2 : list Z) (p : V3) : list Z :=
-    match sites, r2 with
-    | s :: ss, r :: rs => (if dist2 p s <? r then [k] else []) ++ admissible_from (k + 1) ss rs p
-    | _, _ => []
-    end.
-  Definition admissible_sites (sites : list V3) (r2 : list Z) (p : V3) : list Z := admissible_from 0 sites r2 p.
+(* a reported state is acceptable when it is an admissible site, or -1 when there is none
+   (-99 marks positions excluded by the float32 guard band of the tie) *)
+Definition ok_state (adm : list Z) (st : Z) : bool :=
+  (st =? -99) || match adm with [] => st =? -1 | _ => existsb (Z.eqb st) adm end.
 
-  (* the state reported for an atom is acceptable when it is an admissible site, or -1 when there is none *)
-  Definition state_ok (sites : list V3) (r2 : list Z) (p : V3) (st : Z) : bool :=
-    match admissible_sites sites r2 p with
-    | [] => st =? -1
-    | adm => existsb (Z.eqb st) adm
-    end.
-
-  (* inner states: same rule with the scaled radii; acceptable inner state is -1 or admissible *)
-  (* automatic radius: spheres of radius r around sites at mutual distance >= dmin do not overlap when 2 r <= dmin *)
-  Definition spheres_disjoint (sites : list V3) (r2 : Z) : bool :=
-    (* 4 r^2 <= d^2 for all pairs *)
-    forallb (fun s => forallb (fun t => (qf G (vsub3 s t) =? 0) || (4 * r2 <=? dist2 s t)) sites) sites.
-End Sites.
+(* automatic radius: all site spheres of squared radius r are pairwise disjoint when 4 r^2 <= d^2 *)
+Definition spheres_disjoint (D : Z) (G : gram) (K : Z) (sites : list V3) (r : Z * Z) : bool :=
+  forallb (fun s => forallb (fun t => (qf G (vsub3 s t) =? 0) || (4 * fst r <=? dist2 D G K s t * snd r)) sites) sites.
 
 (* integer_remap as written (palette = np.unique(a), index = np.digitize(a, palette, right=True)):
    maps a value to key[rank of the value among the values that occur] *)
